@@ -11,7 +11,7 @@ def listAddClips : Bool := true
 def freezeWraps : String := "receiver"
 def sortedArg : String := "copy"
 def sortedReverse : String := "flip-comparator"
-def sortedSortFns : List String := ["sort.Slice"]
+def sortedSortFns : List String := ["sort.SliceStable"]
 def reversedArg : String := "copy"
 def constantFoldsLists : Bool := true
 def listSlice : String := "reslice"
